@@ -120,3 +120,19 @@ def _simops_src():
     from translate import gen_simops
     from vcheck import core
     return gen_simops.generate(os.path.join(core.REPO, 'src', 'kyupy', 'sim.py'))[0]
+
+
+@register('CircuitPrimsSrc')
+def _circuit_prims_src():
+    import os
+    from translate import gen_circuit_prims
+    from vcheck import core
+    return gen_circuit_prims.generate(os.path.join(core.REPO, 'src', 'kyupy', 'circuit.py'))[0]
+
+
+@register('TraversalsSrc')
+def _traversals_src():
+    import os
+    from translate import gen_traversals
+    from vcheck import core
+    return gen_traversals.generate(os.path.join(core.REPO, 'src', 'kyupy', 'circuit.py'))[0]
